@@ -17,6 +17,7 @@ import (
 
 	"verifharness/mc"
 	"verifharness/shim/vsched"
+	"verifharness/world"
 )
 
 func init() {
@@ -117,6 +118,14 @@ func runC20(r *mc.Run) {
 		{"content-length-garbage+nil-body", map[string][]string{"Content-Length": {"-1", "x"}, "Transfer-Encoding": {"chunked"}}, nil},
 		{"retry-after+warning-headers", map[string][]string{"Retry-After": {"120"}, "Warning": {"199 - stale"}, "Content-Encoding": {"gzip"}, "Status": {"503 Service Unavailable"}}, []byte("{}")},
 		{"odd-names+empty-value-lists", map[string][]string{"x-odd_name": {}, "Content-Type": nil, " Leading-Space": {""}}, []byte("body")},
+	}
+	// long bodies (a TCB Info is a few KiB, a CRL may be larger), with and without spare capacity behind them
+	for _, n := range []int{63, 64, 65, 100, 2401, 70000} {
+		for _, spare := range []int{0, 4096} {
+			b := make([]byte, n, n+spare)
+			copy(b, world.Fill("c20-long-body", n))
+			shapes = append(shapes, shape{fmt.Sprintf("body-of-%d-bytes,spare-capacity-%d", n, spare), map[string][]string{"Content-Type": {"application/json"}}, b})
+		}
 	}
 	// kinds of failure of the wrapped getter: whatever the error looks like, it is a failed attempt to be retried
 	type errKind struct {
@@ -299,7 +308,7 @@ func cloneBytes(b []byte) []byte {
 	if b == nil {
 		return nil
 	}
-	return append([]byte{}, b...)
+	return append(make([]byte, 0, cap(b)), b...) // same length AND capacity (spare capacity behind a body is part of its shape)
 }
 
 // exploreSerial is Engine A without parallelism (the virtual clock is process-global).
